@@ -63,7 +63,7 @@ type Store[H header.Header[H]] struct {
 	// pending keeps headers pending to be written in one batch
 	pending *batch[H]
 	// syncCh is a channel used to synchronize writes
-	syncCh chan chan struct{}
+	syncCh chan syncRequest
 	cancel context.CancelFunc
 
 	onDeleteMu sync.Mutex
@@ -123,7 +123,7 @@ func newStore[H header.Header[H]](ds datastore.Batching, opts ...Option) (*Store
 		writes:      make(chan []H, 16),
 		writesDn:    make(chan struct{}),
 		pending:     newBatch[H](params.WriteBatchSize),
-		syncCh:      make(chan chan struct{}),
+		syncCh:      make(chan syncRequest),
 		Params:      params,
 	}, nil
 }
@@ -176,9 +176,23 @@ func (s *Store[H]) Stop(ctx context.Context) error {
 
 // Sync ensures all pending writes are synchronized. It blocks until the operation completes or fails.
 func (s *Store[H]) Sync(ctx context.Context) error {
+	return s.syncThen(ctx, nil)
+}
+
+// syncRequest asks the flush loop to write out everything appended so far.
+type syncRequest struct {
+	// done is closed once that is done
+	done chan struct{}
+	// then, if set, is run by the flush loop right after, before any further write is processed
+	then func()
+}
+
+// syncThen is Sync followed by 'then' executed in step with the flush loop: no header is flushed
+// and no head or tail is moved by the loop while 'then' runs.
+func (s *Store[H]) syncThen(ctx context.Context, then func()) error {
 	waitCh := make(chan struct{})
 	select {
-	case s.syncCh <- waitCh:
+	case s.syncCh <- syncRequest{done: waitCh, then: then}:
 	case <-s.writesDn:
 		return errStoppedStore
 	case <-ctx.Done():
@@ -416,10 +430,9 @@ func (s *Store[H]) setTail(ctx context.Context, write datastore.Write, to uint64
 	return nil
 }
 
+// It must run in step with the flush loop (see syncThen): a flush working on a deinitialized
+// store finds no head to write.
 func (s *Store[H]) wipe(ctx context.Context) (rerr error) {
-	// TODO(@Wondertan): calling deinit here is racy, but not critical
-	//  Will be eventually fixed by
-	//  https://github.com/celestiaorg/go-header/issues/263
 	s.deinit()
 
 	if err := s.ds.Delete(ctx, headKey); err != nil {
@@ -511,7 +524,7 @@ func (s *Store[H]) flushLoop(ctx context.Context) {
 
 	for {
 		select {
-		case dn := <-s.syncCh:
+		case req := <-s.syncCh:
 			for {
 				select {
 				case headers := <-s.writes:
@@ -529,7 +542,10 @@ func (s *Store[H]) flushLoop(ctx context.Context) {
 				if s.pending.Len() > 0 {
 					flush([]H{}, true)
 				}
-				close(dn)
+				if req.then != nil {
+					req.then()
+				}
+				close(req.done)
 				break
 			}
 		case headers := <-s.writes:
